@@ -180,7 +180,7 @@ def error_lines(chk, prog):
                        f"the error's line is {panics.short_desc(line)}", where=b.where(blk))
             okf = desc_contains(file_, lambda y: y[0] == "param" and y[2] in ("filename", "containing_file", "path"))
             chk.ob("R2.error_line", fn, f"error `{label}`: names the file being parsed", okf, f"file is {panics.short_desc(file_)}", where=b.where(blk))
-    chk.floor("ConfigError construction sites in the tree parser", n, 8)
+    chk.floor("ConfigError construction sites in the tree parser", n, 4)
     tb = prog.bodies.get("<humphrey_server::config::traceback::TracebackIterator<T> as std::iter::Iterator>::next")
     chk.floor("TracebackIterator::next", 1 if tb else 0, 1)
     if tb:
@@ -332,7 +332,7 @@ def defaults(chk, prog):
         # enumerated-value tables lie on every successful path as well
         for blk_i in range(len(ft.blocks)):
             pass
-    chk.floor("optional keys", n, 8)
+    chk.floor("optional keys", n, 5)
     chk.extra["defaults"] = seen
     want = {"server.address": "'0.0.0.0'", "server.port": "80", "server.threads": "32", "server.timeout": "0", "server.cache.size": "0", "server.cache.time": "0"}
     for k, v in want.items():
@@ -369,4 +369,4 @@ def run(chk):
                 how, why = "reviewed", f"{allow[s.fingerprint]['reason']} [{why2}]"
         chk.ob("R6.no_crash", s.body.path, s.fingerprint.split("|", 1)[1], how is not None,
                f"a configuration file can crash the loader: {s.kind} {s.what} ({why or 'no discharge idiom applies'})" if how is None else f"{how}: {why}", where=s.where())
-    chk.floor("panic sites in the config loader", len(sites), 15)
+    chk.floor("panic sites in the config loader", len(sites), 6)
